@@ -547,7 +547,7 @@ def run_case(case):
         nfiles = len(seen)
         nt = 0
         for j in range(nfiles):
-            for kk in (0, "last"):
+            for kk in (0, "last", "silent"):
                 w = d / "w"
                 shutil.rmtree(w, ignore_errors=True)
                 shutil.copytree(base, w)
@@ -557,17 +557,26 @@ def run_case(case):
                     key = str(getattr(self, "data_path", id(self)))
                     if key not in _order:
                         _order.append(key)
-                    if _order.index(key) == _j and chunk_idx == (0 if _kk == 0 else self.n_chunks - 1):
+                    if _order.index(key) == _j and _kk == "silent" and chunk_idx == self.n_chunks // 2:
+                        # nothing raised: the chunk is damaged on its way to storage (a valid-looking but wrong compressed chunk)
+                        idx_, (chunk_, comp_) = orig_cc(self, chunk_idx)
+                        bb = bytearray(comp_)
+                        bb[len(bb) // 2] ^= 0x5A
+                        res.count("compression_faults_injected")
+                        return idx_, (chunk_, bytes(bb))
+                    if _order.index(key) == _j and _kk != "silent" and chunk_idx == (0 if _kk == 0 else self.n_chunks - 1):
                         res.count("compression_faults_injected")
                         raise OSError(f"injected failure while compressing chunk {chunk_idx} of file #{_j}")
                     return orig_cc(self, chunk_idx)
                 mtscomp.Writer._compress_chunk = failing_cc
-                label = f"{kind} delete_original={case['delete']}: compression library fails at the {'first' if kk == 0 else 'last'} chunk of file #{j + 1}/{nfiles}"
+                label = (f"{kind} delete_original={case['delete']}: compression library fails at the {'first' if kk == 0 else 'last'} chunk of file #{j + 1}/{nfiles}" if kk != "silent"
+                         else f"{kind} delete_original={case['delete']}: a chunk of file #{j + 1}/{nfiles} is silently damaged while the compressed file is written")
                 try:
                     r1 = step(res, w, rec, opts, False, label)
                 finally:
                     mtscomp.Writer._compress_chunk = orig_cc
-                res.check(r1["exc"] is not None, "compress-fault:swallowed", f"{label}: the failure did not propagate (status {r1['status']})")
+                if kk != "silent":
+                    res.check(r1["exc"] is not None, "compress-fault:swallowed", f"{label}: the failure did not propagate (status {r1['status']})")
                 res.count("recoverability_checked")
                 res.check(recoverable(w, rec), "recoverable:lost-after-compress-fault", f"{label}: after the failed compression the recording is not recoverable")
                 r2 = step(res, w, rec, opts, False, label + " -> retry")
